@@ -58,6 +58,7 @@ func c06Body(s *simkit.Sim, rc *simkit.RunCtx) {
 	if faulty {
 		f.Rates[seams.KVOpErr] = 12
 		f.Rates[seams.KVCommitFail] = 30
+		f.Rates[seams.KVCtxCancel] = 20 // the submitter's context ends inside the write transaction: a rejected Add like the others
 		f.MaxFaults = 5
 		// faults only in the DAG store's Add path: the oracle about subscriber calls needs the
 		// ledger subscriber's own bookkeeping to work
